@@ -139,13 +139,21 @@ def _apply(f, op, model, out_len, ref_eval):
     elif op == "reset":
         f.reset_dictionary()
         model["pts"] = set()
+        model["counted_when_deactivated"] = 0
     elif op == "deactivate":
         f.deactivate_caching()
+        if model["cache"]:
+            model["counted_when_deactivated"] = len(model["pts"])     # switching the cache off is not a reset
         model["cache"] = False
     elif op == "size":
         n = f.get_f_dict_size()
         if model["cache"] and n != len(model["pts"]):
             bad.append(("evaluation_counter", "get_f_dict_size() = %r, distinct points evaluated since the last reset = %d" % (n, len(model["pts"]))))
+        if not model["cache"] and not (model.get("counted_when_deactivated", 0) <= n <= len(model["pts"])):
+            # with caching off the library counts batch evaluations only (accepted): the counter then lies between what had been counted
+            # when the cache was switched off and the number of distinct points evaluated since the last reset
+            bad.append(("evaluation_counter", "caching off: get_f_dict_size() = %r, counted when the cache was switched off %d, distinct points since the last reset %d"
+                        % (n, model.get("counted_when_deactivated", 0), len(model["pts"]))))
     return bad
 
 
